@@ -205,6 +205,48 @@ def run(model, col, tier):
               "the node's own known location and every child's known location are merged", "own/children locations are not all merged into the node's location", UPD, vg)
     setl = [c for c in ast.walk(vg) if isinstance(c, ast.Call) and last_attr(c) == "SetLocation"]
     col.check(bool(setl) and "Merge" in unparse(setl[0]), "R20.3", f"{UPD}::v_Generic stores the hull", "obj.SetLocation(Location.Merge(*locations))", None, UPD, vg)
+    # only *known* locations enter the hull (an unknown one is the span (-1,-1): it would drag the begin to -1), and a non-empty
+    # collection is always stored
+    from ..paths import cond_atoms as _ca20
+    from ..sem import local_env as _le20
+
+    def _cf(t_):
+        return bool(t_.value) if isinstance(t_, ast.Constant) else None
+
+    fns20 = [vg] + [n for n in ast.walk(vg) if isinstance(n, ast.FunctionDef) and n is not vg]
+    nknown = 0
+    known_sites = set()
+    bad_app = []
+    for fn_ in fns20:
+        env_ = _le20(fn_, allow_impure=True)
+        for evs, status in paths(fn_.body, fold=_cf):
+            atoms = _ca20(evs, env_)
+            inner_ids = {id(x) for d_ in ast.walk(fn_) if isinstance(d_, ast.FunctionDef) and d_ is not fn_ for x in ast.walk(d_)}
+            for c in calls_on_path(evs):
+                if id(c) in inner_ids:
+                    continue
+                if last_attr(c) == "append" and c.args and isinstance(c.func, ast.Attribute):
+                    from ..sem import rtext as _rt20
+
+                    what = _rt20(c.args[0], env_)
+                    known = atoms.get(f"{what}.IsUnknown")
+                    if known is False:
+                        known_sites.add(id(c))
+                        nknown = len(known_sites)
+                    else:
+                        bad_app.append(f"`{unparse(c)}` under {[(k, v) for k, v in atoms.items() if 'IsUnknown' in k]}")
+    col.check(nknown >= 2 and not bad_app, "R20.3", f"{UPD}::v_Generic collects known locations only", "the own and each child location is added exactly when it is not unknown",
+              (bad_app[0] if bad_app else "own / child location is never collected") + ": an unknown location (-1,-1) enters the hull or a known one is left out, so a composite's range does not cover its parts", UPD, vg)
+    stored_paths = unstored_nonempty = 0
+    for evs, status in paths(vg.body, fold=_cf):
+        atoms = _ca20(evs)
+        has = any(last_attr(c) == "SetLocation" for c in calls_on_path(evs))
+        if has:
+            stored_paths += 1
+        elif atoms.get("locations") is not False:
+            unstored_nonempty += 1
+    col.check(stored_paths > 0 and unstored_nonempty == 0, "R20.3", f"{UPD}::v_Generic stores a non-empty hull", "whenever a location was collected the node's location is set",
+              "there is a path on which locations were collected but the node's location is not updated: composite constructs keep their unknown / partial location", UPD, vg)
     unk = loc.find_method("IsUnknown")
     col.check(unk is not None and "(-1, -1)" in unparse(unk[1]), "R20.3", f"{ASTF}::Location.IsUnknown", "unknown = span (-1, -1), the default of every node", None, ASTF, loc.node)
     ap = pipe.ast_passes
